@@ -60,15 +60,13 @@ def cases(rng, tier):
         c = PK.gen_data_case(rng, tier) if rng.random() < 0.5 else PK.gen_interest_case(rng, tier)
         if c['signer'][0] == 'none' and rng.random() < 0.8:
             c['signer'] = rng.choice([['digest', 1], ['hmac'], ['ec256'], ['ed25519']])
-        if c['signer'][0] == 'digest' and c['pkt'] == 'interest':
-            c['signer'] = ['digest', 1]
         # keep packets moderate (a few hundred bytes, at most ~2 kB): every tampered copy is parsed, verified and its
         # observation kept until the end of the run, so a 64 kB name would cost tens of MB per case
         for key in ('content', 'app'):
             if c.get(key) and c[key] > 1500:
                 c[key] = c[key] % 600
         _cap_names(c)
-        c['tamper'] = [[rng.choice(['subst', 'subst', 'subst', 'trunc', 'dup', 'del', 'swap', 'ins', 'len', 'digestcut']),
+        c['tamper'] = [[rng.choice(['subst', 'subst', 'subst', 'trunc', 'dup', 'del', 'swap', 'ins', 'len', 'digestcut', 'widen']),
                         rng.getrandbits(30), rng.getrandbits(8)] for _ in range(k)]
         # TLV-level edits aimed at the Name, SignatureInfo / KeyLocator and the signature elements
         c['tamper'] += [[rng.choice(TARGETED), rng.getrandbits(30), rng.getrandbits(8)] for _ in range(k // 2 + 1)]
@@ -215,6 +213,9 @@ def shrink(case):
             yield dict(case, **{key: case[key] // 2})
     if case['name']:
         yield dict(case, name=case['name'][:-1])
+    for k in ('name_form', 'fh_form', 'key_name', 'payload_form', 'key_form', 'obj_form', 'pre', 'parse_form'):
+        if case.get(k) is not None:
+            yield {a: b for a, b in case.items() if a != k}
 
 
 def _apply_tamper(wire, t):
@@ -271,6 +272,16 @@ def _apply_tamper(wire, t):
         if kind == 'len':
             p = vs - 1
             return wire[:p] + bytes([(wire[p] + 1 + b % 3) % 256]) + wire[p + 1:]
+        if kind == 'widen':
+            # the same element with its Length (b odd: its Type) written in a longer form than necessary
+            t0, _, _ = S.read_elem(wire, off, ve)
+            w = [2, 4, 8][b % 3]
+            lead = {2: b'\xfd', 4: b'\xfe', 8: b'\xff'}[w]
+            if b % 8 == 7:
+                hdr = lead + t0.to_bytes(w, 'big') + T.tl(ve - vs)
+            else:
+                hdr = T.tl(t0) + lead + (ve - vs).to_bytes(w, 'big')
+            return c07._rebuild(wire, tree, (off, ve), hdr + wire[vs:ve])
     except Exception:     # noqa
         return wire
     return wire
@@ -329,38 +340,45 @@ def spec_portions(kind, wire):
 
 # ------------------------------------------------------------------------------------- verification
 def _verify(case, parsed_sp_wire):
-    """run the matching shipped verifier on a wire; returns True/False/None (no verifier) or 'exc:<cls>'"""
+    """run the matching shipped verifier on a wire, twice on the same SignaturePtrs; returns True/False/None (no
+    verifier), 'exc:<cls>', or 'unstable' when the two verdicts differ"""
     from ndn import encoding as enc
     from ndn.security import validator as v
     k = case['signer'][0]
     try:
+        arg = PK.as_form(parsed_sp_wire, case.get('parse_form'))
         if case['pkt'] == 'data':
-            name, _, _, sp = enc.parse_data(parsed_sp_wire)
+            name, _, _, sp = enc.parse_data(arg)
         else:
-            name, _, _, sp = enc.parse_interest(parsed_sp_wire)
+            name, _, _, sp = enc.parse_interest(arg)
     except Exception as e:     # noqa
         return 'unparsable'
-    try:
+
+    def once():
         if k == 'digest':
             # sha256_digest_checker only judges packets whose SignatureInfo says DigestSha256 (it lets every
             # other packet through for the next checker of a union): its verdict counts only for those
             if sp.signature_info is None or sp.signature_info.signature_type != 0:
                 return None
-            return bool(asyncio.run(v.sha256_digest_checker(name, sp)))
+            return bool(_drive(v.sha256_digest_checker(name, sp)))
         if k == 'hmac':
-            return bool(v.verify_hmac(b'secret-key-0123', sp))
+            return bool(v.verify_hmac(PK.key_in_form(k, b'secret-key-0123', case.get('key_form')), sp))
         if k.startswith('ec'):
             return bool(v.verify_ecdsa(PK.keys()[k][1], sp))
         if k.startswith('rsa'):
             return bool(v.verify_rsa(PK.key(k)[1], sp))
         if k == 'ed25519':
             return bool(v.verify_ed25519(PK.keys()[k][1], sp))
+        return None
+    try:
+        r1 = once()
+        r2 = once()
     except Exception as e:     # noqa
         return 'exc:' + type(e).__name__
-    return None
+    return r1 if r1 == r2 else 'unstable'
 
 
-DEFAULT_KEY_NAME = {'hmac': '/k/hmac', 'ec256': '/k/ec256', 'ec384': '/k/ec384', 'ec521': '/k/ec521', 'rsa2048': '/k/rsa',
+DEFAULT_KEY_NAME = {'hmac': '/k/hmac', 'ec224': '/k/ec224', 'ec256': '/k/ec256', 'ec384': '/k/ec384', 'ec521': '/k/ec521', 'rsa2048': '/k/rsa',
                     'rsa4096': '/k/rsa', 'ed25519': '/k/ed'}
 
 
@@ -374,35 +392,71 @@ def _drive(coro):
     raise RuntimeError('checker suspended')
 
 
-def _verify_checker(case, wire):
-    """the shipped known-key validator classes (HmacChecker / EccChecker / RsaChecker / Ed25519Checker .from_key) for
-    the key the packet was signed with; True/False, None (no such checker) or 'exc:<cls>'"""
-    from ndn import encoding as enc
+def _make_checkers(case):
+    """ONE known-key validator object per case (HmacChecker / EccChecker / RsaChecker / Ed25519Checker .from_key for the
+    key the packet was signed with), used for the made packet and then for every tampered copy, and the same checker
+    behind union_checker(sha256_digest_checker, .) as an application would install it.  The public key is handed over
+    as bytes / bytearray / memoryview.  Returns (checker, union) or 'exc:<cls>' or None (no such checker)"""
+    from ndn.security import validator as v
     from ndn.security.validator import known_key_validator as kk
     k = case['signer'][0]
     if k not in DEFAULT_KEY_NAME or case.get('key_name') == []:
         return None           # (a checker built for the empty key name accepts nothing: degenerate, not judged)
     try:
-        if case['pkt'] == 'data':
-            name, _, _, sp = enc.parse_data(wire)
-        else:
-            name, _, _, sp = enc.parse_interest(wire)
-    except Exception:     # noqa
-        return 'unparsable'
-    try:
         kn = case.get('key_name')
         key_name = DEFAULT_KEY_NAME[k] if kn is None else [bytes.fromhex(c) for c in kn]
+        form = PK.BUF_FORMS[case['seed'] % 4] if case.get('key_form') else None
         if k == 'hmac':
-            chk = kk.HmacChecker.from_key(key_name, b'secret-key-0123')
+            chk = kk.HmacChecker.from_key(key_name, PK.buf_in_form(b'secret-key-0123', form))
         elif k.startswith('ec'):
-            chk = kk.EccChecker.from_key(key_name, PK.keys()[k][1].export_key(format='DER'))
+            chk = kk.EccChecker.from_key(key_name, PK.buf_in_form(PK.keys()[k][1].export_key(format='DER'), form))
         elif k.startswith('rsa'):
-            chk = kk.RsaChecker.from_key(key_name, PK.key(k)[1].export_key('DER'))
+            chk = kk.RsaChecker.from_key(key_name, PK.buf_in_form(PK.key(k)[1].export_key('DER'), form))
         else:
-            chk = kk.Ed25519Checker.from_key(key_name, PK.keys()[k][1].export_key(format='DER'))
-        return bool(_drive(chk(name, sp)))
+            chk = kk.Ed25519Checker.from_key(key_name, PK.buf_in_form(PK.keys()[k][1].export_key(format='DER'), form))
+        out = [chk, v.union_checker(v.sha256_digest_checker, chk), None]
     except Exception as e:     # noqa
         return 'exc:' + type(e).__name__
+    if k != 'hmac':
+        # the other constructor: from_cert, given a certificate of the signing key (self-signed here)
+        try:
+            from ndn.app_support import security_v2 as sv2
+            ks = PK.key(k)
+            pub = ks[1].export_key('DER') if k.startswith('rsa') else ks[1].export_key(format='DER')
+            _, cert = sv2.self_sign(key_name, pub, PK.make_signer(case['signer'], key_name))
+            cls = kk.EccChecker if k.startswith('ec') else kk.RsaChecker if k.startswith('rsa') else kk.Ed25519Checker
+            out[2] = cls.from_cert(PK.buf_in_form(bytes(cert), form))
+        except Exception as e:     # noqa
+            out[2] = 'exc:' + type(e).__name__
+    return out
+
+
+def _verify_checker(case, wire, chks):
+    """[verdict of the known-key checker, of the union, of the checker built from_cert]: True/False, None (no such
+    checker), 'unparsable' or 'exc:<cls>'"""
+    from ndn import encoding as enc
+    if chks is None:
+        return [None, None, None]
+    if isinstance(chks, str):
+        return [chks, chks, None]
+    try:
+        arg = PK.as_form(wire, case.get('parse_form'))
+        if case['pkt'] == 'data':
+            name, _, _, sp = enc.parse_data(arg)
+        else:
+            name, _, _, sp = enc.parse_interest(arg)
+    except Exception:     # noqa
+        return ['unparsable', 'unparsable', None if chks[2] is None else 'unparsable']
+    out = []
+    for c in chks:
+        if c is None or isinstance(c, str):
+            out.append(c)
+            continue
+        try:
+            out.append(bool(_drive(c(name, sp))))
+        except Exception as e:     # noqa
+            out.append('exc:' + type(e).__name__)
+    return out
 
 
 def _digest_check(wire):
@@ -424,10 +478,19 @@ def run_impl(case):
     if made['made'][0] != 'ok':
         return out
     wire = bytes.fromhex(made['made'][1])
-    out['parsed'] = PK.parse_packet(case['pkt'], wire)
+    form = case.get('parse_form')
+    out['parsed'] = PK.parse_packet(case['pkt'], wire, form)
     out['spec'] = _hexspec(spec_portions(case['pkt'], wire))
     out['verify'] = _verify(case, wire)
-    out['verify2'] = _verify_checker(case, wire)
+    chks = _make_checkers(case)
+    out['verify2'], out['verify3'], out['verify4'] = _verify_checker(case, wire, chks)
+    first = made.get('first')
+    if case.get('pre') == 'same' and first is not None and first[0] == 'ok' and case['signer'][0] != 'none':
+        # the packet of the earlier, identical call (same signer object, same argument objects) must verify as well;
+        # (what its signer was handed is not recorded: judged through the verifier only)
+        w1 = bytes.fromhex(first[1])
+        out['first'] = {'verify': _verify(case, w1), 'spec': _hexspec(spec_portions(case['pkt'], w1)),
+                        'parsed': _slim(PK.parse_packet(case['pkt'], w1))}
     if case['pkt'] == 'interest':
         out['digest_ok'] = _digest_check(wire)
     seen = set()
@@ -436,8 +499,9 @@ def run_impl(case):
         if w2 == wire or w2 in seen:
             continue
         seen.add(w2)
-        c = {'wire': w2.hex(), 'parsed': _slim(PK.parse_packet(case['pkt'], w2)), 'spec': _hexspec(spec_portions(case['pkt'], w2)),
-             'verify': _verify(case, w2), 'verify2': _verify_checker(case, w2)}
+        v2, v3, v4 = _verify_checker(case, w2, chks)
+        c = {'wire': w2.hex(), 'parsed': _slim(PK.parse_packet(case['pkt'], w2, form if form != 'no_tl' else None)),
+             'spec': _hexspec(spec_portions(case['pkt'], w2)), 'verify': _verify(case, w2), 'verify2': v2, 'verify3': v3, 'verify4': v4}
         if case['pkt'] == 'interest':
             c['digest_ok'] = _digest_check(w2)
         out['copies'].append(c)
@@ -540,6 +604,21 @@ def oracle(case, impl):
             return f"the matching verifier does not accept the packet its signer produced ({impl['verify']})"
         if impl.get('verify2') is False or isinstance(impl.get('verify2'), str):
             return f"the known-key checker for the signing key does not accept the packet its signer produced ({impl['verify2']})"
+        if impl.get('verify3') is False or isinstance(impl.get('verify3'), str):
+            return ("union_checker(sha256_digest_checker, known-key checker for the signing key) does not accept the packet "
+                    f"its signer produced ({impl['verify3']})")
+        if impl.get('verify4') is False or isinstance(impl.get('verify4'), str):
+            return ("the known-key checker built from_cert (a certificate of the signing key) does not accept the packet its "
+                    f"signer produced ({impl['verify4']})")
+        f1 = impl.get('first')
+        if f1 is not None:
+            # an earlier identical call with the same signer object: that packet is a packet produced with a signer too
+            if f1['parsed']['res'] != 'ok' or f1['spec'] is None:
+                return 'first of two packets made with the same signer object does not parse'
+            if ''.join(f1['parsed']['SC']) != f1['spec'][0] or f1['parsed']['SV'] != f1['spec'][1]:
+                return 'first of two packets made with the same signer object: parser does not report the specified signed portion'
+            if f1['verify'] is False or isinstance(f1['verify'], str):
+                return f"first of two packets made with the same signer object is not accepted by the matching verifier ({f1['verify']})"
     if case['pkt'] == 'interest':
         r = _digest_rule(impl, spec, impl.get('digest_ok'))
         if r:
@@ -555,7 +634,9 @@ def oracle(case, impl):
             r = _digest_rule(c, cs, c.get('digest_ok'))
             if r:
                 return 'tampered copy: ' + r
-        if signed and (c['verify'] is True or c.get('verify2') is True):
+        if signed and c['verify'] == 'unstable':
+            return 'the verifier gives two different verdicts for the same parsed packet'
+        if signed and (c['verify'] is True or c.get('verify2') is True or c.get('verify3') is True or c.get('verify4') is True):
             # what the verifier consumed must be what was signed ...
             if ''.join(cp['SC']) != spec[0] or cp['SV'] != spec[1]:
                 return 'verifier accepted a copy although the bytes it checked or the signature value differ from the signed packet'
@@ -588,6 +669,13 @@ def nontrivial(case, impl):
 
 def tags(case, impl):
     t = ['pkt:' + case['pkt'], 'signer:' + case['signer'][0]]
+    for k in ('payload_form', 'key_form', 'obj_form', 'pre', 'parse_form'):
+        if case.get(k) is not None:
+            t.append(f'{k}:{case[k]}')
+    if impl.get('verify3') is not None:
+        t.append('union:' + str(impl['verify3']))
+    if impl.get('verify4') is not None:
+        t.append('from_cert:' + str(impl['verify4']))
     for c in impl['copies']:
         t.append('copy:' + ('parses' if c['parsed']['res'] == 'ok' else 'rejected'))
         if c['parsed']['res'] == 'ok':
